@@ -279,6 +279,10 @@ class MetadorDataset(MetadorNode):
     _self_RO_FORBIDDEN = {"resize", "make_scale", "write_direct", "flush"}
 
     def __getattr__(self, key):
+        if hasattr(type(self), key):
+            # we only get here if a property of the wrapper refused access
+            # (the exception is an AttributeError) -> must not fall back to raw node
+            raise UnsupportedOperationError(f"Cannot use {key}, access is restricted!")
         if self.acl[NodeAcl.read_only] and key in self._self_RO_FORBIDDEN:
             self._guard_acl(NodeAcl.read_only, key)
         if self.acl[NodeAcl.skel_only] and key == "get":
